@@ -43,6 +43,14 @@ def _apply(part, pspec, op, d):
             return "skip"
         part.deepen()
         return "deepen"
+    if op[0] == "chain":
+        # expand the last cell of the deepest layer op[1] times: the only way to reach depths in the hundreds
+        for _ in range(op[1]):
+            if sum(len(l) for l in part.get_node_list()) + ar > MAX_NODES:
+                return "skip"
+            leaf = part.get_node_list()[part.get_depth()][-1]
+            part.make_children(leaf, newlayer=True)
+        return "new"
     if nnodes + ar > MAX_NODES:
         return "skip"
     lv = leaves(part.get_root())
@@ -207,7 +215,26 @@ def make_machine(col, sub):
     return PartitionMachine
 
 
+def deep_cases():
+    """Depths in the hundreds (long chains), then the ordinary operations: bookkeeping that only
+    breaks beyond some depth (a cached small integer, a recursion limit, a fixed-size table)."""
+    out = []
+    for cls, K in (("BinaryPartition", None), ("RandomBinaryPartition", None), ("KaryPartition", 3), ("RandomKaryPartition", 4),
+                   ("DimensionBinaryPartition", None)):
+        for m in (10, 100, 255, 256, 257, 300, 520):
+            ps = {"cls": cls}
+            if K:
+                ps["K"] = K
+            for tail in ([["deepen"]], [["expand", 3], ["deepen"], ["expand", 1]], [["deepen"], ["deepen"]]):
+                out.append({"partition": ps, "domain": [[0.0, 1.0]] if cls != "DimensionBinaryPartition" else [[0.0, 1.0], [2.0, 3.0]],
+                            "rng": {"mode": "seed", "seed": m}, "ops": [["chain", m]] + tail})
+    return out
+
+
 def run_shard(ctx):
+    ctx.enumerate("deep", deep_cases(), check_case)
     ctx.drive_machine("machine", make_machine(ctx.col, "machine"), ctx.budget(8000, 100000), steps=25 if ctx.tier == "quick" else 50)
-    ctx.drive("algos", gen.run_case(T_max=150, poo_ok_only=True, gpo_ok_only=True, script_prob=0.3),
+    quick = ctx.tier == "quick"
+    ctx.drive("algos", gen.run_case(T_max=200 if quick else 600, n_range=(100, 700) if quick else (100, 2500),
+                                    poo_ok_only=True, gpo_ok_only=True, script_prob=0.3),
               check_case, ctx.budget(3200, 40000))
